@@ -302,6 +302,17 @@ def limits(ctx):
             if mm and tr is True and int(mm.group(2)) <= bound and "len(" in mm.group(1) and k == "InvalidInput":
                 if not any(b in cfg.reachable(f, mb) for mb in muts):
                     found = (int(mm.group(2)), mm.group(1))
+    if found is not None:
+        # the count must include the rows already stored: the comparison comes after they were loaded
+        rr = [b for b, t in f.calls() if cname(prog, t) == "msi::internal::table::Table::read_rows"]
+        gb = None
+        for (b, t, k, m) in error_sites(prog, f):
+            for (e, tr, g) in Sf.bool_facts_at(b):
+                if tr is True and re.search(r" Gt c:%d\)$" % found[0], e):
+                    gb = g
+        ok_order = len(rr) == 1 and gb is not None and gb in cfg.reachable(f, rr[0]) and rr[0] not in cfg.reachable(f, gb)
+        ctx.check(ok_order, R, "the row bound is tested after the stored rows were loaded", "", "Insert::exec compares the row count with the bound before the stored rows are read: only the rows of "
+                  "the current call are counted, so several calls can grow the table beyond %d rows" % bound, f.loc(), fn=f.name, key=R + "|Insert|order")
     ctx.check(found is not None, R, "Insert::exec enforces the row bound", str(found)[:160],
               "Table::read_rows refuses more than %d rows but Insert::exec writes any number: a saved package the library cannot read back" % bound, f.loc(), fn=f.name, key=R + "|Insert")
     if found:
